@@ -47,7 +47,7 @@ StyleCells(s) == CASE s = "r" -> <<<<114, 101, 100>>, <<>>>>
                    [] OTHER -> <<<<>>, <<>>>>
 
 SpecialPiece(s) == CASE s = "LB" -> PcOpenEsc [] s = "RB" -> PcCloseEsc [] s = "NL" -> PcNewLine
-                     [] s = "BS" -> PcOpenWs(32) [] OTHER -> PcOpenWs(10)
+                     [] s = "BS" -> PcOpenWs(32) [] s = "BT" -> PcOpenWs(9) [] OTHER -> PcOpenWs(10)          \* BT: an opening brace followed by a TAB
 PhPieces == {PcPlaceholder(KeyCells(k), c = "always", AlignCell(a), WidthCells(w), t, StyleCells(s)[1], StyleCells(s)[2]) :
                 k \in Keys, c \in Colons, a \in Aligns, w \in Widths, t \in Truncs, s \in Styles}
 PlainPieces == {PcLit(c) : c \in LitChars} \cup {SpecialPiece(s) : s \in Specials}
